@@ -67,6 +67,8 @@ def check(tier, seed):
     def on_result(j, r, st, det, io):
         k = io["kind"]
         key = j["meta"]["prog"]
+        if st in ("impl-timeout", "model-timeout"):
+            return True      # the clock, not the code: counted under its status, not compared
         limit = ("stack too large" in r["err"]) or ("out of memory" in r["err"])
         if k.startswith(("sanitizer", "signal", "assert", "crash")):
             sig = vm_checks.crash_signature(r)
